@@ -1268,6 +1268,84 @@ def trimconfig(ctx):
     ctx.floor("CONFLINE", "config line readers", n, 2)
 
 
+def counter_init(ctx):
+    """COUNTERINIT (C13): `init_connid_counter` starts the statistics afresh: on every path it
+    stores a *new* `ConnIdCounter` into the worker (`self.counter = Some(ConnIdCounter::new(..))`).
+    `get_or_insert_with` keeps the counter of an earlier run, so a second `init` no longer zeroes
+    the counts and the probabilities mix two corpora."""
+    crate = ctx.facts("A").lib
+    E = Effects(crate)
+    ps = [q for q in crate.fns if strip_generics(q).endswith("worker::Worker::init_connid_counter") and crate.fns[q].body]
+    if len(ps) != 1:
+        raise EngineError("COUNTERINIT: anchor lost: Worker::init_connid_counter")
+    p = ps[0]
+    f = crate.fns[p]
+    fa = E.fa(p)
+    keeps = [fa.loc(b) for b, t in fa.calls()
+             if {strip_generics(x).rsplit("::", 1)[-1] for x in callee_paths(t)} &
+             {"get_or_insert_with", "get_or_insert", "or_insert_with", "get_or_insert_default", "is_none", "is_some"}]
+    stores = []
+    for b, i, s0 in fa.stmts():
+        lhs = s0.get("lhs") or {}
+        if lhs.get("l") == 1 and any(isinstance(e, dict) and e.get("n") == "counter" for e in lhs.get("p", [])):
+            o = fa.origin(s0["rv"]["op"]) if s0["rv"]["k"] == "use" else ("rv", s0["rv"])
+            rv = o[1] if o[0] == "rv" else {}
+            fresh = False
+            if rv.get("k") == "agg" and rv.get("variant") == "Some" and rv.get("ops"):
+                oo = fa.origin(rv["ops"][0])
+                fresh = oo[0] == "call" and any("ConnIdCounter" in x and x.endswith("::new") for x in
+                                                [strip_generics(y) for y in callee_paths(oo[2])])
+            stores.append((b, fresh))
+    rets = fa.return_blocks()
+    fresh_blocks = {b for b, fr in stores if fr}
+    from flow import must_pass
+    ok = bool(fresh_blocks) and all(must_pass(fa, r, fresh_blocks) for r in rets) and not keeps
+    ctx.ob("COUNTERINIT", "%s|stores-a-new-counter" % p, ok, "%s:%s" % (f.file, f.line),
+           "every path through init_connid_counter stores Some(ConnIdCounter::new(..)) into the worker" if ok else
+           "init_connid_counter does not store a new counter on every path (%s): counts of an earlier "
+           "run survive a second init and the probabilities mix two corpora"
+           % ("an existing counter is kept: " + ", ".join(keeps) if keeps else "no `counter = Some(ConnIdCounter::new(..))`"))
+
+
+def next_id_rule(ctx):
+    """NEXTID (C18, C15, C14): a feature string that is not in the table yet receives the running
+    counter `*next_id` as its id - not a value derived from the table's size. Training removes
+    unused strings from the tables afterwards (their ids stay taken by weights), so `len() + 1`
+    is then an id that is still in use, and a new string of a user lexicon shares it."""
+    from flow import back_slice
+    crate = ctx.facts("A").lib
+    E = Effects(crate)
+    ps = [q for q in crate.fns if strip_generics(q).endswith("FeatureExtractor::extract_feature_ids") and crate.fns[q].body]
+    if not ps:
+        raise EngineError("NEXTID: anchor lost: FeatureExtractor::extract_feature_ids")
+    n = 0
+    for p in ps:
+        fa = E.fa(p)
+        f = crate.fns[p]
+        pn = f.j.get("param_names") or []
+        if "next_id" not in pn:
+            raise EngineError("NEXTID: extract_feature_ids has no parameter `next_id`")
+        nid = pn.index("next_id") + 1
+        for b, t in fa.calls():
+            nm = {strip_generics(x).rsplit("::", 1)[-1] for x in callee_paths(t)}
+            if not (nm & {"or_insert", "insert", "or_insert_with"}) or not any("ash" in x and "ap" in x for x in callee_paths(t)):
+                continue
+            val = t["args"][-1]
+            calls = []
+            srcs = back_slice(fa, val, lambda bb, tt: calls.append(tt))
+            from_counter = ("arg", nid) in srcs
+            from_len = any({strip_generics(x).rsplit("::", 1)[-1] for x in callee_paths(c)} & {"len", "count"} for c in calls)
+            n += 1
+            ok = from_counter and not from_len
+            ctx.ob("NEXTID", "%s|new-id-is-the-counter|%d" % (strip_generics(p), n), ok, fa.loc(b),
+                   "the id stored for a new feature string is the running counter `*next_id`" if ok else
+                   "the id stored for a new feature string is %s: after training has removed unused strings "
+                   "from the table that value is an id still in use, and a new string (a user-lexicon "
+                   "feature) shares the id - and the weights - of another feature"
+                   % ("derived from the size of the table" if from_len else "not taken from `*next_id`"))
+    ctx.floor("NEXTID", "id insertions in extract_feature_ids", n, 1)
+
+
 def regex_trainer(ctx):
     regex_grammar(ctx, lambda p: "trainer::" in p)
 
